@@ -9,8 +9,9 @@ MANIFEST = {
                  "pattern set x query; every verdict replayed into go-git's gitignore Scope walk and git check-ignore -v -n",
     "text": "Exhaustive within the bound: every single pattern line of <= 3 (quick) / <= 4 (thorough) symbols over "
             "{a,b,*,?,/,!,**,[ab],\\,SP} alone in the root or in a/.gitignore, and every pair of lines of <= 2 symbols in three "
-            "arrangements (same file, root + a/, info/exclude + root), each against 56 queries (28 paths of <= 3 components over "
-            "{a,b,ab,'a '} as file and as directory); the spec also names the deciding file and line, which git must confirm.",
+            "arrangements (same file, root + a/, info/exclude + root), each against 72 queries (36 paths: 28 of <= 3 components over "
+            "{a,b,ab,'a '} plus 8 with an inserted component, as file and as directory); additionally '**' followed by two literal segments "
+            "(**/x/y, /**/x/y, a/**/x/y, optionally dir-only, alone and negated after an excluding line); the spec also names the deciding file and line, which git must confirm.",
     "note": "Trusts the symbol abstraction and git 2.39 as witness (git is asked on a seeded sample of sets and on every set where "
             "go-git disagrees with the spec; spec != git is exit 2). Binds the Scope walk used by Status (RootPatterns/NewScope/"
             "Descend/Match); the deprecated flat ReadPatterns+Matcher, core.excludesfile and case folding are not covered.",
@@ -40,9 +41,9 @@ def run(ctx):
             f.write(json.dumps(x) + "\n")
     ctx.cov["bounds"] = {"single_line_max_symbols": n, "pair_line_max_symbols": m, "pair_alphabet": pa,
                          "alphabet": ["a", "b", "*", "?", "/", "!", "**", "[ab]", "bs", "sp"],
-                         "queries": 56, "levels": ["info/exclude", ".gitignore", "a/.gitignore"]}
+                         "queries": 72, "levels": ["info/exclude", ".gitignore", "a/.gitignore"]}
     ctx.cov["exhaustive"] = True
-    ctx.cov["rule"] = ("every pattern set of the bounded domain of spec/rules/GitIgnore.tla is a TLC state whose 56 verdict codes "
+    ctx.cov["rule"] = ("every pattern set of the bounded domain of spec/rules/GitIgnore.tla is a TLC state whose 72 verdict codes "
                        "(ignored / which file:line decided) are computed by the spec; distinct = pattern sets; non-trivial = every "
                        "(set, query) is asked of go-git's Scope walk; git check-ignore is asked on a seeded sample and on every set "
                        "where go-git disagrees")
